@@ -142,10 +142,11 @@ func TestVerifC19Prov(t *testing.T) {
 			credsTerm = "(Some " + gStrs(toks) + ")"
 		}
 		out, err := saltedTokenProvider(local, remote)(ctx)
-		if local.bad != "" {
-			t.Fatal(local.bad)
-		}
 		o := "None"
+		if local.bad != "" {
+			// the local backend was not asked with exactly the one token: reported as an output no model produces
+			out, err = []string{"[" + local.bad + "]"}, nil
+		}
 		if err == nil {
 			o = "(Some " + gStrs(out) + ")"
 			if len(out) != len(toks) && credsTerm != "None" {
@@ -244,6 +245,16 @@ func c19NewConn(rec *c19Recorder, local *c19ConnLocal, loginCluster string) *Con
 		remotes[id] = rc
 	}
 	return &Conn{cluster: cluster, local: local, remotes: remotes}
+}
+
+func c19Recover(f func()) (panicked string) {
+	defer func() {
+		if p := recover(); p != nil {
+			panicked = fmt.Sprint(p)
+		}
+	}()
+	f()
+	return ""
 }
 
 func c19ConnDest(host string) string {
@@ -383,31 +394,35 @@ func c19CrcCase(t *testing.T, cs *vCases, i int, r *vRand) {
 	conn := c19NewConn(rec, local, "")
 	ctx := auth.NewContext(context.Background(), &auth.Credentials{Tokens: caller.tokens})
 	ctx = arvados.ContextWithRequestID(ctx, "req-"+c19Str(r, c19Alnum, 8))
-	_, err := conn.ContainerRequestCreate(ctx, arvados.CreateOptions{ClusterID: target, Attrs: attrs})
-	sent := rec.take()
-	if len(sent) > 1 {
-		t.Fatalf("case %d: %d requests sent for one ContainerRequestCreate", i, len(sent))
+	var err error
+	if p := c19Recover(func() { _, err = conn.ContainerRequestCreate(ctx, arvados.CreateOptions{ClusterID: target, Attrs: attrs}) }); p != "" {
+		err = errors.New("panic: " + p)
 	}
-	oSent, oAuth, oRT := len(sent) == 1, "", "None"
+	sent := rec.take()
+	// anything unexpected is reported through the observation (it then disagrees with the model), never by
+	// failing the harness; the search covers every request that was sent
+	oSent, oAuth, oRT := len(sent) > 0, "", "None"
 	var parts []c19Part
 	var rtSeen interface{}
-	if oSent {
+	for _, s := range sent {
+		parts = append(parts, c19Parts(s)...)
+	}
+	if len(sent) > 1 {
+		oAuth = fmt.Sprintf("[%d requests sent]", len(sent))
+	} else if oSent {
 		oAuth = sent[0].Header.Get("Authorization")
-		parts = c19Parts(sent[0])
+		var cr map[string]interface{}
 		form, perr := url.ParseQuery(sent[0].Body)
 		if perr != nil {
-			t.Fatalf("case %d: body of the forwarded request does not parse: %v", i, perr)
-		}
-		var cr map[string]interface{}
-		if jerr := json.Unmarshal([]byte(form.Get("container_request")), &cr); jerr != nil {
-			t.Fatalf("case %d: container_request in the forwarded body does not parse: %v", i, jerr)
-		}
-		if v, ok := cr["runtime_token"]; ok {
+			oRT = "(Some " + gStr("[unparseable body]") + ")"
+		} else if jerr := json.Unmarshal([]byte(form.Get("container_request")), &cr); jerr != nil {
+			oRT = "(Some " + gStr("[unparseable container_request]") + ")"
+		} else if v, ok := cr["runtime_token"]; ok {
 			rtSeen = v
 			if sv, ok := v.(string); ok {
 				oRT = "(Some " + gStr(sv) + ")"
 			} else {
-				t.Fatalf("case %d: forwarded runtime_token is not a string: %v", i, v)
+				oRT = "(Some " + gStr(fmt.Sprintf("[not a string: %v]", v)) + ")"
 			}
 		}
 	}
@@ -486,10 +501,10 @@ func c19ConnCase(t *testing.T, cs *vCases, i int, r *vRand) {
 		method = "CollectionUpdate"
 		_, err = conn.CollectionUpdate(ctx, arvados.UpdateOptions{UUID: uuid("4zz18"), Attrs: map[string]interface{}{"name": "n"}})
 	}
-	if local.bad != "" {
-		t.Fatal(local.bad)
-	}
 	sent := rec.take()
+	if local.bad != "" { // the root token was not what the local cluster was called with: shows in the description and as a request no model explains
+		sent = append(sent, c19Sent{Host: c19RemoteHost(dest), Method: "HARNESS", Path: "/" + local.bad, Header: http.Header{}})
+	}
 	secrets := append([]string{c19RootToken}, caller.secrets...)
 	var sentTerms []string
 	leaks := map[string]bool{}
